@@ -18,6 +18,11 @@ SignOf(zs, signs) == Cardinality({q \in 1..M : zs[q] = 3 /\ signs[q] = 1}) % 2
 Pad(S, signs) == {PadOp(zs, SignOf(zs, signs), g) : zs \in [1..M -> {0, 3}], g \in S}
 ASSUME PadEntropy == \A S \in {T \in Groups : Good(T)} : \A signs \in [1..M -> 0..1] : \A A \in SUBSET (1..M + K) :
     Entropy(Pad(S, signs), A) = Entropy(S, {q - M : q \in {a \in A : a > M}})
+\* second lemma: the GHZ state has one bit of entropy in every proper non-empty region (checked here for K + M qubits;
+\* used by TraceStab!GHZEntropyOK for locally rotated GHZ states on up to 140 qubits, whose entropies are the same by
+\* the invariance of the entropy under Clifford operations acting inside or outside the region)
+ASSUME GHZEntropy == LET n == K + M IN \A A \in SUBSET (1..n) :
+    Entropy(GHZGroup(n), A) = (IF A = {} \/ A = 1..n THEN 0 ELSE 1)
 VARIABLE x
 Init == x = 0
 Next == UNCHANGED x
